@@ -29,6 +29,21 @@ CHECKS = {
         text="For every catalogue cell and Hypothesis-generated matrix the three inverses are applied to encode(m) for all 2^k messages (k<=12) and for seeded messages in the layouts (k,), (B,k), (B1,B2,k), (B,b.k), (B1,B2,b.k); output must equal m, the syndrome must be zero and shapes must scale by exactly k/n resp. n/k; inputs whose last dimension is not a multiple of the block size must raise.",
         note="Hamming and Reed-Muller override inverse_encode with a single-block contract: an exception there on multi-block layouts is accepted (counted), a wrong value never is.",
         design="4/C04"),
+    "C05": dict(
+        technique="exhaustive enumeration of symbols, ordered symbol pairs (triples for schemes with memory) + Hypothesis-generated bit sequences/layouts; round-trip oracle with the scheme's documented start-up convention",
+        text="For every scheme/order/labelling/normalisation option, built directly and through ModulationRegistry.create, the check modulates every b-bit group, every ordered pair of symbols (and every ordered triple for differential/offset/alternating schemes), and Hypothesis-generated sequences of 1..64 symbols in 1-D and batched layouts, in eval mode after a state reset, and compares hard demodulation with the input bits and the symbol count with bits/b.",
+        note="Start-up conventions as stated in the property (differential reference symbol dropped, OQPSK Q stream delayed by one symbol). Documented index-input overloads (pi/4-QPSK 1-D <=4 values, single-element PSK/DPSK inputs) are respected.",
+        design="4/C05"),
+    "C06": dict(
+        technique="dense grid / boundary / far-field received points against a brute-force nearest-point and max-log LLR reference (tie-tolerant validity predicate; one positive constant per demodulator)",
+        text="For every scheme option the hard decision on each received point must be the label of a constellation point within d_min+1e-4 of it, and every soft output must equal c.(D1-D0)/noise_var with one positive constant c per demodulator (estimated, not prescribed), have the sign of D1-D0, be independent of noise_var after multiplication by it over six decades, and a per-symbol noise-variance tensor must reproduce the per-symbol scalar results. Differential schemes are probed on their normalised decision variable, pi/4-QPSK at even and odd positions.",
+        note="Reference tables are the published (constellation, bit_patterns), tied to the mapper by C14.c. float32 tolerances: 1e-4 absolute on distances, 2e-3 relative on LLR ratios.",
+        design="4/C06"),
+    "C14": dict(
+        technique="exhaustive pairwise examination of every published and mapper-induced constellation table; Gray utilities exhaustively below 2^16, Hypothesis-generated up to 2^60, plus an atheris (libFuzzer) campaign with the oracle inside the target",
+        text="Every scheme's published table and the table induced by modulating every bit group are checked for 2^b distinct points, bijective labels, unit mean energy where requested/by definition, agreement with each other, and the Gray property on all nearest-neighbour pairs; binary_to_gray/gray_to_binary and their array forms are compared with n^(n>>1), inverted both ways and checked for unit Hamming distance of consecutive integers on all n<2^16 and generated n<2^60; a coverage-guided campaign looks for special-cased constants.",
+        note="Nearest neighbours = pairs within 1e-4 relative of the minimum distance. atheris is installed from the offline wheelhouse into /verif/.deps by setup.sh; if unavailable the campaign is skipped and the evidence says so.",
+        design="4/C14"),
     "C18": dict(
         technique="exhaustive enumeration of small domains + Hypothesis-generated operands against an independent int-bitmask GF(2)[X]/GF(2^m) reference",
         text="Every clause of C18 (Euclidean division, gcd/Bezout, lcm, ring laws; field axioms, primitive order, inverse, power, trace, conjugates, minimal polynomial) is evaluated on all polynomial pairs of degree < 8, all field pairs for m <= 7 (thorough: <= 10), all triples for m <= 4 (thorough: 5), every element for m <= 8 and on Hypothesis-generated operands up to degree 200 / m = 16, and compared with a reference that shares no code with kaira. Exploration: exhaustive on the stated finite grids, sampling above them.",
